@@ -117,6 +117,7 @@ func SpecCutReplace(entry, match, replacement string) string {
 //@   tags C05 C07
 //@   results out err
 //@   checks[C05,C07] definitions-not-shared: called(parseFile) && isNil(argOf(parseFile, 2))
+//@   checks[C05,C07] nothing-leaks-back: len(parser.variables) == old(len(parser.variables))
 
 // SpecBlockWith: `base` followed by xs[0..n), each followed by the concatenation marker
 // (accumulated from the left, as the code writes it).
@@ -201,6 +202,8 @@ func OpaqueFJoin2(a, b string) string       { return filepath.Join(a, b) }
 //@   params a b
 //@   results r
 //@   ensures r == OpaqueFJoin2(a, b)
+//@   rtc tokens "/" "a" "b-" "." ".." "rules"
+//@   ensures implies(utils.SpecRootLike(a) && utils.SpecWord(b), r == a+"/"+b && utils.SpecRootLike(r))
 
 // SpecWithRa: the .ra extension is appended unless the name already ends in it.
 func SpecWithRa(name string) string {
@@ -225,10 +228,14 @@ func SpecWithRa(name string) string {
 // `found` has; that every found[k] fits the pattern registered under the case's name is the
 // switch-groups obligation below (read from NewParser's literal on every run).
 //@ contract Parser.parseLine
-//@   tags C19
+//@   tags C19 C07
 //@   safety none
 //@   opt termination C19
-//@   results pl
+//@   results parsed
+//@   loop 0 leave[C07] definition-stored-verbatim: implies(name == definitionPatternName, pl.definitions[found[2]] == found[3])
+
+// the arguments of include / include-except lines are separated by white space and nothing else
+//@ reglemma[C06] arguments-split-at-white-space-only: equal(full(parser.spaceRegex), full(`\s+`))
 
 //@ directive[C19,C03] switch-groups Parser.parseLine NewParser patterns
 
